@@ -66,6 +66,16 @@ def _h(*parts):
 # --------------------------------------------------------------------------- messages (built with the reference only)
 
 
+INV_BIG = (253, 1000, 0)
+ADDR_BIG = (1000, 999, 253, 0)
+
+
+def _shared(salt):
+    """One inv/addr message in four carries content that is NOT unique to its sender and position: several peers
+    announce the same inventory / addresses, a peer repeats itself.  Each copy is a message of its own."""
+    return (salt >> 16) % 4 == 0
+
+
 def _count(salt, big):
     """Entries of an inv/addr message: 1 or 2, and for one message in eight one of the protocol's boundary counts."""
     sel = (salt >> 8) % (8 * len(big))
@@ -91,10 +101,17 @@ def build_message(kind, peer, idx, salt):
         )
         return b"version", pl
     if kind == "inv":
-        n = _count(salt, (253, 1000))
+        if _shared(salt):
+            # the same announcement as other peers make (or as this peer made before): one of two fixed payloads
+            w = (salt >> 18) % 2
+            return b"inv", W.inv_payload([(1 + j % 2, _h("inv", "shared", w, j)) for j in range(1 + w)])
+        n = _count(salt, INV_BIG)
         return b"inv", W.inv_payload([(1 + ((salt >> 1) + j) % 2, _h("inv", peer, idx, salt, j)) for j in range(n)])
     if kind == "addr":
-        n = _count(salt, (1000, 999, 253, 0))  # 1000 is the most one addr message may carry
+        if _shared(salt):
+            w = (salt >> 18) % 2
+            return b"addr", W.addr_payload([(1700000000 + j, 1, _h("addr", "shared", w, j)[:16], 8333 + j) for j in range(1 + w)])
+        n = _count(salt, ADDR_BIG)  # 1000 is the most one addr message may carry
         ents = [(1700000000 + tag + j, 1, _h("addr", peer, idx, salt, j)[:16], 8333 + tag + j) for j in range(n)]
         return b"addr", W.addr_payload(ents)
     if kind == "known":
@@ -438,14 +455,19 @@ def _case_labels(peers):
         out.append("nt:case/byte-stream-delivery")
     else:
         out.append("case/per-message-delivery")
+    shared = []
     for m in peers:
         for k, salt in m:
             if k == "unknown" and (salt >> 12) % 9 in (4, 5):
                 out.append("nt:case/unknown-command-fills-12-bytes")
-            if k in ("inv", "addr") and (salt >> 8) % (8 * (4 if k == "addr" else 2)) < (4 if k == "addr" else 2):
+            if k in ("inv", "addr") and _shared(salt):
+                shared.append((k, (salt >> 18) % 2))
+            elif k in ("inv", "addr") and (salt >> 8) % (8 * len(ADDR_BIG if k == "addr" else INV_BIG)) < len(ADDR_BIG if k == "addr" else INV_BIG):
                 out.append(f"nt:case/{k}-boundary-count")
                 if k == "addr" and (salt >> 8) % 32 == 0:
                     out.append("nt:case/addr-1000-entries")
+    if len(shared) != len(set(shared)):
+        out.append("nt:case/same-inv-or-addr-content-sent-more-than-once")
     return out
 
 
@@ -768,7 +790,7 @@ def targets(tier):
             strategy=lambda tier: sampled_cases(),
             budget={"quick": 4000, "thorough": 50000},
             required=[NT, "nt:exec/library-logging-at-its-own-level", "case:peers-2", "case:peers-3", "nt:case/addr-boundary-count", "nt:case/inv-boundary-count",
-                      "nt:case/addr-1000-entries", "nt:case/unknown-command-fills-12-bytes", "nt:case/byte-stream-delivery", "case/per-message-delivery"] + ["kind:" + k for k in KINDS],
+                      "nt:case/addr-1000-entries", "nt:case/unknown-command-fills-12-bytes", "nt:case/byte-stream-delivery", "case/per-message-delivery", "nt:case/same-inv-or-addr-content-sent-more-than-once"] + ["kind:" + k for k in KINDS],
         ),
         Target(
             "walks-3x2",
